@@ -377,6 +377,10 @@ fn run_schedule(run_id: usize, sch: &Value, dir: &str, trace: &mut Trace) -> Val
         }
         trace.emit(&rec);
         steps_done += 1;
+        if !s.engine_errors.is_empty() {
+            eprintln!("ENGINE-ERROR in run {run_id}: {:?}", s.engine_errors);
+            std::process::exit(3);
+        }
         let dead = !s.panicked.is_empty();
         prev = s;
         if dead {
